@@ -914,7 +914,11 @@ Proof. intro A. split; [exact A|reflexivity]. Qed.
 Lemma outs_via s s' (r : R) : eff cAllP pTrue s s' -> goodR s' r -> outs_q (f_tls_disabled s) (snd r).
 Proof. intros A [_ B]. rewrite <- (effA_dis _ _ A). exact B. Qed.
 Ltac outs :=
-  first [ reflexivity
+  first [ match goal with
+          | |- outs_q _ [] => reflexivity
+          | |- outs_q _ [_] => reflexivity
+          | |- outs_q _ [_; _] => reflexivity
+          end
         | eapply outs_via; cycle 1;
           [ first [apply auth_good | apply do_bind_good | apply sns_good | apply sasl_result_good
                   | apply features_sasl_good | apply conn_disconnect_good]
